@@ -43,14 +43,21 @@ struct Monitor {
 
 std::map<std::string, uint64_t> g_extra;
 
-void section(Resource& res, Monitor& mon, int rid, bool w, bool guard, int yields, sim::Barrier* bar) {
+struct Inner {   // optional nested critical section on a SECOND resource, taken while the outer lock is held (fixed order A -> B)
+    Resource* res;
+    Monitor* mon;
+    bool w, guard;
+    int yields;
+};
+void section(Resource& res, Monitor& mon, int rid, bool w, bool guard, int yields, sim::Barrier* bar, const Inner* inner = nullptr, int residx = 0) {
     sim::set_tag(rid);
-    sim::ev(E_ISSUE, rid, w);
+    sim::ev(E_ISSUE, rid, (int)w | (residx << 1));
     auto inside = [&] {
         sim::ev(E_ACQ, rid, w);
         sim::set_tag(0);
         mon.enter(w, rid);
         for (int i = 0; i < yields; i++) sim::yield();
+        if (inner) section(*inner->res, *inner->mon, rid + 50, inner->w, inner->guard, inner->yields, nullptr, nullptr, 1);
         if (bar) {
             sim::set_tag(TAG_BARRIER);
             sim::ev(E_BARRIER, rid, 0);
@@ -71,7 +78,7 @@ void section(Resource& res, Monitor& mon, int rid, bool w, bool guard, int yield
 }
 
 struct Req {
-    int rid = 0; bool w = false;
+    int rid = 0; bool w = false; int res = 0;
     int64_t issue = -1, acq = -1, rel_ret = -1;
     std::vector<int64_t> parks;
     int tid = -1;
@@ -84,7 +91,7 @@ void analyse(const std::string& prop) {
     auto& evs = sim::events();
     for (auto& e : evs) {
         switch (e.kind) {
-            case E_ISSUE: { auto& r = reqs[e.a]; r.rid = e.a; r.w = e.b; r.issue = e.seq; r.tid = e.tid; break; }
+            case E_ISSUE: { auto& r = reqs[e.a]; r.rid = e.a; r.w = e.b & 1; r.res = e.b >> 1; r.issue = e.seq; r.tid = e.tid; break; }
             case E_ACQ: reqs[e.a].acq = e.seq; break;
             case E_REL_RET: reqs[e.a].rel_ret = e.seq; break;
             case sim::EV_PARK:
@@ -115,7 +122,7 @@ void analyse(const std::string& prop) {
     for (auto* a : v) {
         if (a->parks.empty()) continue;
         for (auto* b : v) {
-            if (a == b || b->issue < 0 || a->parks[0] > b->issue) continue;
+            if (a == b || a->res != b->res || b->issue < 0 || a->parks[0] > b->issue) continue;
             if (!a->w && !b->w) continue;
             pairs++;
             if (b->acq >= 0 && (a->acq < 0 || a->acq > b->acq)) {
@@ -135,7 +142,7 @@ void analyse(const std::string& prop) {
             g_extra["c12_parked_reads_checked"]++;
             bool writer = false;
             for (auto* w : v)
-                if (w->w && w->issue >= 0 && w->issue < p && (w->rel_ret < 0 || w->rel_ret > r->issue)) writer = true;
+                if (w->w && w->res == r->res && w->issue >= 0 && w->issue < p && (w->rel_ret < 0 || w->rel_ret > r->issue)) writer = true;
             if (!writer) {
                 char d[160];
                 snprintf(d, sizeof d, "read request %d (issued #%lld) parked at #%lld although no write request was active or waiting", r->rid, (long long)r->issue, (long long)p);
@@ -146,12 +153,12 @@ void analyse(const std::string& prop) {
 }
 
 // ---- scenarios --------------------------------------------------------------------------------------------------------
-void idle_probe(Resource& res, Monitor& mon, int base) {
+void idle_probe(Resource& res, Monitor& mon, int base, int residx = 0) {
     // C02 oracle 2: after all locks have been released the Resource grants the next requests without waiting.
     // The controller is the only thread left, so a park here is a scheduler deadlock, classified by the tag.
-    section(res, mon, base + 1, true, false, 0, nullptr);
-    sim::set_tag(base + 2); sim::ev(E_ISSUE, base + 2, 0); res.lockRead(); sim::ev(E_ACQ, base + 2, 0);
-    sim::set_tag(base + 3); sim::ev(E_ISSUE, base + 3, 0); res.lockRead(); sim::ev(E_ACQ, base + 3, 0);
+    section(res, mon, base + 1, true, false, 0, nullptr, nullptr, residx);
+    sim::set_tag(base + 2); sim::ev(E_ISSUE, base + 2, residx << 1); res.lockRead(); sim::ev(E_ACQ, base + 2, 0);
+    sim::set_tag(base + 3); sim::ev(E_ISSUE, base + 3, residx << 1); res.lockRead(); sim::ev(E_ACQ, base + 3, 0);
     sim::set_tag(0);
     res.unlockRead(); sim::ev(E_REL_RET, base + 2, 0);
     res.unlockRead(); sim::ev(E_REL_RET, base + 3, 0);
@@ -160,7 +167,8 @@ constexpr int IDLE_BASE = 900000;
 
 void run_random(const Json& prog) {
     auto res = std::make_unique<Resource>();
-    Monitor mon;
+    auto resB = std::make_unique<Resource>();
+    Monitor mon, monB;
     const Json& th = prog.at("threads");
     std::vector<std::thread> ts;
     for (size_t t = 0; t < th.size(); t++) {
@@ -169,12 +177,18 @@ void run_random(const Json& prog) {
             for (size_t s = 0; s < secs.size(); s++) {
                 const Json& sc = secs[s];
                 for (int i = 0; i < (int)sc.get("pre", 0); i++) sim::yield();
-                section(*res, mon, (int)(t + 1) * 100 + (int)s + 1, sc.get("w", 0) != 0, sc.get("g", 0) != 0, (int)sc.get("y", 0), nullptr);
+                Inner in{resB.get(), &monB, sc.get("iw", 0) != 0, sc.get("ig", 0) != 0, (int)sc.get("iy", 0)};
+                bool has_inner = sc.get("inner", 0) != 0;
+                if (sc.get("onB", 0))   // a section on the second resource alone
+                    section(*resB, monB, (int)(t + 1) * 100 + (int)s + 1, sc.get("w", 0) != 0, sc.get("g", 0) != 0, (int)sc.get("y", 0), nullptr, nullptr, 1);
+                else
+                    section(*res, mon, (int)(t + 1) * 100 + (int)s + 1, sc.get("w", 0) != 0, sc.get("g", 0) != 0, (int)sc.get("y", 0), nullptr, has_inner ? &in : nullptr, 0);
             }
         });
     }
     for (auto& t : ts) t.join();
     idle_probe(*res, mon, IDLE_BASE);
+    if (prog.get("two", 0)) idle_probe(*resB, monB, IDLE_BASE + 10, 1);
 }
 
 // C12(b): readers that queue up consecutively behind a writer are admitted together (they rendezvous inside).
@@ -282,12 +296,19 @@ void generate(sim::Rng& g, const std::string& prop, const std::string& tier, Jso
         else { nt = g.range(2, thorough ? 6 : 5); maxsec = thorough ? 5 : 3; pw = pws_all[1 + g.below(3)]; }
         Json th = Json::array();
         int total = 0;
+        bool two = g.below(4) == 0;   // a second Resource: sections on it alone or nested inside a section of the first
+        program.set("two", (int)two);
         for (int t = 0; t < nt; t++) {
             Json secs = Json::array();
             int ns = g.range(1, maxsec);
             for (int s = 0; s < ns; s++) {
                 Json sc = Json::object();
                 sc.set("w", (int)g.chance(pw)).set("g", (int)g.below(2)).set("y", g.range(0, 2)).set("pre", g.range(0, 2));
+                if (two) {
+                    int r = (int)g.below(10);
+                    if (r < 4) sc.set("inner", 1).set("iw", (int)g.chance(pw)).set("ig", (int)g.below(2)).set("iy", g.range(0, 1));
+                    else if (r < 6) sc.set("onB", 1);
+                }
                 secs.push(sc);
                 total++;
             }
@@ -297,6 +318,7 @@ void generate(sim::Rng& g, const std::string& prop, const std::string& tier, Jso
         est = 12 * total + 10 * nt;
     }
     drv::draw_sched(g, cfg, true, est);
+    { static const int speed[] = {2, 2, 2, 0, 100, 4000}; cfg.clock_step_max_ms = speed[g.below(6)]; }  // slow machines: seconds pass between two steps
     if (prop == "C02" && g.below(2) == 0) cfg.spurious_rate = 0;  // a spurious wake-up can mask a lost notification: keep a clean half
     cfg.step_cap = 20000;
 }
@@ -328,6 +350,8 @@ std::string describe(const Json& p) {
             s += sc.get("w", 0) ? 'W' : 'R';
             if (sc.get("g", 0)) s += 'g';
             if (sc.get("y", 0)) s += "y" + std::to_string(sc.get("y", 0));
+            if (sc.get("onB", 0)) s += "@B";
+            if (sc.get("inner", 0)) s += std::string("{B:") + (sc.get("iw", 0) ? "W" : "R") + (sc.get("ig", 0) ? "g" : "") + "}";
         }
     }
     return s;
@@ -360,6 +384,9 @@ std::vector<Json> shrink(const Json& p) {
         for (size_t s = 0; s < th[t].size(); s++) {
             const Json& sc = th[t][s];
             auto with = [&](const char* k, int v) { Json c = p; c.at("threads")[t][s].set(k, v); out.push_back(c); };
+            if (sc.get("inner", 0)) with("inner", 0);
+            if (sc.get("onB", 0)) with("onB", 0);
+            if (sc.get("iw", 0) && sc.get("inner", 0)) with("iw", 0);
             if (sc.get("y", 0)) with("y", 0);
             if (sc.get("pre", 0)) with("pre", 0);
             if (sc.get("g", 0)) with("g", 0);
